@@ -531,9 +531,21 @@ def entry_summary(cx, name):
         freq = {}                     # (request local, flag) -> abstract value
         wrote = False; ser_flags = None; reader_taken = False; reads = set(); back = False; kept = False; armed = None; created = set()
         flushed = False; failed_after_flush = False; seq = 0
+        slot_ref = {}                 # local -> the `&mut place` statement that reaches here on this path (a destination chosen earlier)
         for kind, b, x, st in absval.walk(body, du, cfg, p):
             if kind == "stmt" and x.kind == "assign":
                 s = x
+                if not s.lhs.p:
+                    if s.rv == "ref" and s.rplace is not None and tuple(s.rplace.p) == ("*",) and s.rplace.l in slot_ref: slot_ref[s.lhs.l] = slot_ref[s.rplace.l]        # reborrow
+                    elif s.rv == "ref" and s.rplace is not None: slot_ref[s.lhs.l] = s
+                    elif s.rv in ("use", "cast") and s.ops and s.ops[0].place is not None and not s.ops[0].place.p and s.ops[0].place.l in slot_ref: slot_ref[s.lhs.l] = slot_ref[s.ops[0].place.l]
+                    else: slot_ref.pop(s.lhs.l, None)
+                elif tuple(s.lhs.p) == ("*",) and s.lhs.l in slot_ref:
+                    # `*slot = Some(w)` with `slot = &mut conn.writer` / `&mut self.writer` picked on this path
+                    d = slot_ref[s.lhs.l].rplace
+                    if d.fields()[-1:] == ["writer"]:
+                        if is_conn(d.l) and "MethodCall" not in body.ty(ref_base(du, d.l)[0]): back = True
+                        if ref_base(du, d.l)[0] == 1: kept = True
                 if s.lhs.p and s.lhs.fields()[-1:] and s.lhs.fields()[-1] in FLAGS and is_req(ref_base(du, s.lhs.l)[0]) and s.ops:
                     seq += 1
                     freq[(ref_base(du, s.lhs.l)[0], s.lhs.fields()[-1])] = (seq, absval.operand_value(st, s.ops[0]) if s.rv == "use" else None)
